@@ -5,12 +5,16 @@ import (
 	"fmt"
 	"os"
 	"sync"
+	"time"
 )
 
 // SeqSearch is explicit-state breadth-first search over operation sequences on real objects. A state is
 // the shortest history that reaches it (live objects cannot be cloned: Run rebuilds a fresh object, replays
 // the history and applies the last operation). States are deduplicated by Key (a canonical dump of the real
 // object); the invariant is evaluated by Run on every transition, before deduplication.
+// seqWatchdog bounds the replay of one history (they take milliseconds).
+const seqWatchdog = 20 * time.Second
+
 type SeqSearch struct {
 	NOps     int
 	MaxDepth int // 0: run to closure (no new state)
@@ -78,14 +82,29 @@ func (s *SeqSearch) BFS(c *Ctx) SeqResult {
 				results[i] = out{skip: true, done: true}
 				return
 			}
-			var key string
-			var fl *Failure
-			fl = Guard(func() *Failure {
-				var f2 *Failure
-				key, f2 = s.Run(hist)
-				return f2
-			})
-			results[i] = out{key: sha1.Sum([]byte(key)), fail: fl, done: true}
+			// (under a watchdog: a history whose replay never returns - a lock that is never released - is a failure)
+			type ran struct {
+				key string
+				fl  *Failure
+			}
+			done := make(chan ran, 1)
+			go func() {
+				var key string
+				fl := Guard(func() *Failure {
+					var f2 *Failure
+					key, f2 = s.Run(hist)
+					return f2
+				})
+				done <- ran{key, fl}
+			}()
+			t := time.NewTimer(seqWatchdog)
+			select {
+			case r := <-done:
+				t.Stop()
+				results[i] = out{key: sha1.Sum([]byte(r.key)), fail: r.fl, done: true}
+			case <-t.C:
+				results[i] = out{fail: Failf("replaying the history did not finish within %v: a call into the library never returned (deadlock or endless loop)", seqWatchdog), done: true}
+			}
 		})
 		var next [][]uint8
 		incomplete := false
